@@ -103,6 +103,10 @@ func (x *Exec) special(s *State, fr *Frame, fn *types.Func, name string, recv Va
 		s.assume(Implies(Eq(e, eof), Eq(n, I64(0))))
 		s.assume(Implies(And(Ne(e, x.errNil()), Eq(n, I64(0)), Sle(I64(1), buf.Len)), Ne(e, ueof)))
 		s.assume(Implies(Eq(e, ueof), And(Slt(I64(0), n), Slt(n, buf.Len))))
+		// errors produced by the underlying reader are not this module's own sentinel errors
+		x.note("assumed", "errors returned by the underlying io.Reader are not pebble's own sentinel errors")
+		ext := func(t Term) Term { return x.ctx.UF("err$external", SBool, t) }
+		s.assume(Or(Eq(e, x.errNil()), Eq(e, eof), Eq(e, ueof), And(ext(e), ext(x.errRoot(e)))))
 		return &TupleV{V: []Value{&Scalar{T: n}, &Scalar{T: e}}}, true
 	case name == "github.com/cockroachdb/pebble/internal/crc.New":
 		x.note("trusted", "crc.New(b).Value(): an uninterpreted function of the bytes b[0:len(b)]")
@@ -110,9 +114,11 @@ func (x *Exec) special(s *State, fr *Frame, fn *types.Func, name string, recv Va
 		if !ok {
 			unsup("crc of opaque bytes")
 		}
-		return &Scalar{T: x.ctx.UF("crc$new", BV(32), x.ctx.Share(x.inner(s, "uint8", BV(8), b.Rgn)), b.Off, b.Len)}, true
+		return &Scalar{T: x.seqFunc("crc", BV(32), x.ctx.Share(x.inner(s, "uint8", BV(8), b.Rgn)), b.Off, b.Len)}, true
 	case name == "(github.com/cockroachdb/pebble/internal/crc.CRC).Value":
-		return &Scalar{T: x.ctx.UF("crc$value", BV(32), recv.(*Scalar).T)}, true
+		// Value() is a fixed bijective mix of the state; modelled as the identity on the
+		// abstract checksum (both sides of every comparison apply it)
+		return &Scalar{T: recv.(*Scalar).T}, true
 	case name == "(github.com/cockroachdb/pebble/internal/crc.CRC).Update":
 		b, ok := args[0].(*SliceV)
 		if !ok {
@@ -246,6 +252,41 @@ func (x *Exec) special(s *State, fr *Frame, fn *types.Func, name string, recv Va
 	}
 	// logging / events through interfaces are handled by havocCall with pureExternal
 	return nil, false
+}
+
+type seqApp struct {
+	fn            string
+	arr, off, len Term
+	res           Term
+}
+
+// seqFunc applies an uninterpreted function of a byte sequence arr[off:off+len]
+// (checksums, hashes). The result is a named constant; besides its definition,
+// congruence facts relate it to every earlier application of the same function:
+// equal length and equal bytes give equal results, whatever memory version the
+// bytes are read from.
+func (x *Exec) seqFunc(fn string, ret Sort, arr, off, ln Term) Term {
+	key := fn + "|" + arr.S + "|" + off.S + "|" + ln.S
+	for _, a := range x.seqApps {
+		if a.fn+"|"+a.arr.S+"|"+a.off.S+"|"+a.len.S == key {
+			return a.res
+		}
+	}
+	r := x.ctx.Fresh(fn, ret)
+	x.ctx.AddAxiom("def:"+r.S, []string{r.S}, Eq(r, x.ctx.UF(fn+"$seq", ret, arr, off, ln)).S)
+	for _, a := range x.seqApps {
+		if a.fn != fn {
+			continue
+		}
+		k := x.boundName("k")
+		same := fmt.Sprintf("(forall ((%s (_ BitVec 64))) (=> (bvult %s %s) (= (select %s (bvadd %s %s)) (select %s (bvadd %s %s)))))",
+			k, k, ln.S, arr.S, off.S, k, a.arr.S, a.off.S, k)
+		body := fmt.Sprintf("(=> (and (= %s %s) %s) (= %s %s))", ln.S, a.len.S, same, r.S, a.res.S)
+		x.ctx.AddAxiom("pre:cong:"+r.S+":"+a.res.S, []string{r.S, a.res.S}, body)
+	}
+	x.seqApps = append(x.seqApps, seqApp{fn, arr, off, ln, r})
+	x.note("trusted", fn+": an uninterpreted function of the byte sequence (equal bytes give equal results)")
+	return r
 }
 
 func cmpTermOp(o string, a, b Term, signed bool) Term {
